@@ -490,7 +490,8 @@ pub fn key_conservation(rep: &mut Report, n: u32, seed: u64) {
                 t.push(alphabet[(y >> 33) as usize % alphabet.len()] as char);
             }
             if s + 1 == nseg {
-                t.push_str(&format!("{}", k));
+                // (':' is not in the alphabet: the running number cannot merge with digits of the random text)
+                t.push_str(&format!(":{}", k));
             }
             segs.push(t);
         }
